@@ -506,6 +506,22 @@ class SymExec:
             r.env = saved_env
         return out
 
+    def run_block(self, stmts, st: State, func: Func, depth=0, loop_iters=None):
+        """Run a statement list from `st` (cloned per path).  -> list of States whose
+        `.status` is run (fell through) / return / raise / break / continue."""
+        pe = PathEnum(loop_iters or self.loop_iters, exc_edges=self.exc_edges)
+        out = []
+        for p in pe.block(stmts):
+            s = st.clone()
+            s.path = p
+            for r in self.run_events(p.events, s, func, depth):
+                if r.status == "infeasible":
+                    continue
+                if r.status == "run" and p.status in ("break", "continue"):
+                    r.status = p.status
+                out.append(r)
+        return out
+
     def run_events(self, events, st: State, func: Func, depth):
         states = [st]
         for ev in events:
